@@ -12,12 +12,23 @@ value they replace but encode differently - entity IDs holding the same number i
 "twin", ignored by the model op: further objects of the class, built from the one PduConfig object the caller holds, exist
 while the setters are called on the first object and must stay what they were - see `Bystanders`).
 
+A third family, "factory" (keys ignored by the model ops): every classmethod / staticmethod / helper function of the package
+that builds an object of a mutable class without being handed all of its state (table FACTORIES: `empty()`, `default()`,
+`success_params()`, `success_pdu()`, `from_*`, `create_*_tm`, ...) is called several times, one result is modified through its
+documented setters / public attributes / list methods, and the other results as well as the result of a later call must be
+what they were (core.factory_independent; carried by c11_inputs lines with kind="factory"); and setter-sequence lines whose
+object AND bystanders come from FinishedPdu.success_pdu / FinishedParams.success_params / .empty / FileDataParams.empty
+(key "factory" of c11_fin / c11_fd lines), compared with the model built from the documented values of the factory.
+
 KINDS is a table: adding a kind = one `Kind` subclass + one generator entry (+ one `Kind` record in Ops/Mutation.lean).
 """
 import copy
+import datetime
 import itertools
 import json
+import pathlib
 import random
+import warnings
 import zlib
 from typing import Any, Dict, Iterator, List, Optional
 
@@ -47,7 +58,17 @@ from spacepackets.cfdp.pdu.eof import EofPdu
 from spacepackets.cfdp.pdu.finished import FinishedPdu, FinishedParams
 from spacepackets.cfdp.pdu.metadata import MetadataPdu, MetadataParams
 from spacepackets.cfdp.pdu.file_data import FileDataPdu, FileDataParams, SegmentMetadata, RecordContinuationState
-from spacepackets.util import UnsignedByteField
+from spacepackets.util import (
+    UnsignedByteField, ByteFieldU8, ByteFieldU16, ByteFieldU32, ByteFieldU64, ByteFieldEmpty, ByteFieldGenerator,
+)
+from spacepackets.ccsds.spacepacket import PacketId, PacketSeqCtrl, PacketType, SequenceFlags, SpacePacketHeader
+from spacepackets.ccsds.time import CdsShortTimestamp
+from spacepackets.countdown import Countdown
+from spacepackets.ecss.fields import PacketFieldEnum
+from spacepackets.ecss.req_id import RequestId
+import spacepackets.ecss.pus_1_verification as pus1
+from spacepackets.ecss.pus_1_verification import Service1Tm, Subservice, FailureNotice
+from spacepackets.cfdp.tlv.msg_to_user import DirectoryParams, ProxyPutResponseParams
 from spacepackets.uslp.frame import TransferFrame, TransferFrameDataField, USLP_TFDF_MAX_SIZE
 from spacepackets.uslp.header import PrimaryHeader, TruncatedPrimaryHeader
 
@@ -103,6 +124,18 @@ def _cfdp_len_field(raw: bytes) -> int:
 # --------------------------------------------------------------------------------------------
 # the table of kinds
 # --------------------------------------------------------------------------------------------
+def _factory_args(a, table):
+    """a line with the key "factory" must carry the values the factory is documented to produce (a minimiser must not
+    drift to other values: reported as a failure of its own kind, like ConstructorRefused)"""
+    want = table.get(a["factory"])
+    if want is None or any(a.get(k) != v for k, v in want.items()) or a.get("via_unpack"):
+        raise FactoryLineMalformed(f"line with factory={a['factory']!r} does not carry the documented values {want!r}")
+
+
+class FactoryLineMalformed(Exception):
+    pass
+
+
 class Kind:
     op = ""
     modelled = True          # a Lean state machine exists (else: implementation-side self-checks only)
@@ -233,6 +266,11 @@ class FdKind(CfdpKind):
     cls = FileDataPdu
 
     def ctor(self, a, conf=None):
+        if a.get("factory"):
+            # key "factory" (not read by the model op): the parameter object comes from the library's factory; the line
+            # carries the documented values of that factory, which is what the model is built from
+            _factory_args(a, {"empty_params": {"data": "", "offset": 0, "meta": None}})
+            return FileDataPdu(pdu_conf=c06._conf(a) if conf is None else conf, params=FileDataParams.empty())
         return FileDataPdu(pdu_conf=c06._conf(a) if conf is None else conf,
                            params=FileDataParams(file_data=_data(a["data"]), offset=a["offset"], segment_metadata=_meta(a)))
 
@@ -329,7 +367,21 @@ class FinishedKind(CfdpKind):
 
     cls = FinishedPdu
 
-    def ctor(self, a, conf=None): return c6v._fin(a, conf)
+    FACTORY_ARGS = {"success_pdu": {"cond": 0, "delivery": 0, "status": 2, "responses": [], "fault": None},
+                    "success_params": {"cond": 0, "delivery": 0, "status": 2, "responses": [], "fault": None},
+                    "empty_params": {"cond": 0, "delivery": 0, "status": 0, "responses": [], "fault": None}}
+
+    def ctor(self, a, conf=None):
+        how = a.get("factory")
+        if how:
+            # key "factory" (not read by the model op): the PDU / its parameter object comes from the library's factory;
+            # the line carries the documented values of that factory, which is what the model is built from
+            _factory_args(a, self.FACTORY_ARGS)
+            conf = c06._conf(a) if conf is None else conf
+            if how == "success_pdu":
+                return FinishedPdu.success_pdu(conf)
+            return FinishedPdu(conf, FinishedParams.success_params() if how == "success_params" else FinishedParams.empty())
+        return c6v._fin(a, conf)
 
     def apply(self, p, s):
         if s["set"] == "responses":
@@ -487,6 +539,8 @@ class Bystanders:
 
     def _where(self, label: str, when: str) -> str:
         shared = "from the same caller-supplied PduConfig object" if self.conf is not None else "from equal arguments"
+        if self.a.get("factory"):
+            shared += f" through the library's factory ({self.a['factory']}, like the first one)"
         return f"a second object of the class built {label} the first one {shared}, never modified; {when}"
 
     def check(self, when: str, what: str):
@@ -501,6 +555,15 @@ class Bystanders:
             raise SelfCheckFailure(f"{what} modified the PduConfig object the caller passed to the constructor: "
                                    f"{self.conf0!r} -> {_snap_conf(self.conf)!r}")
 
+    def later(self, what: str):
+        """factory lines: an object made the same way AFTER all setter calls on the first one is what the bystanders were"""
+        o = _build(lambda: self.kind.ctor(self.a, self.conf), "constructor")
+        now = _obs(self.kind, o, None, f"an object made the same way ({what}) after the setter calls on the first one")
+        first = next((rec[2] for rec in self.others if rec[2] is not None), None)
+        if first is not None and now != first:
+            raise SelfCheckFailure(f"{what}: an object made AFTER the setter calls on an earlier one differs from those made before "
+                                   f"them: {_obs_diff(first, now)}")
+
 
 def _run(kind: Kind, a) -> Dict[str, Any]:
     twin = a.get("twin")
@@ -514,6 +577,17 @@ def _run(kind: Kind, a) -> Dict[str, Any]:
             by.make("after")
     else:
         obj = _build(lambda: kind.build(a), "constructor / decoder")
+    if a.get("factory"):
+        # clean-up only: what the setter calls below do to the object the factory handed out is taken back at the end
+        restore = core.state_snapshot(obj)
+        try:
+            return _run_steps(kind, a, obj, by)
+        finally:
+            restore()
+    return _run_steps(kind, a, obj, by)
+
+
+def _run_steps(kind: Kind, a, obj, by) -> Dict[str, Any]:
     out = {"initial": _obs(kind, obj, None, "after construction", probe=True), "steps": []}
     if by is not None:
         by.check("after construction and pack() of all objects", "constructing / packing the objects")
@@ -530,6 +604,8 @@ def _run(kind: Kind, a) -> Dict[str, Any]:
         out["steps"].append(_obs(kind, obj, err, when, probe=i == last))
         if by is not None:
             by.check(when + " on the first object", f"setter call #{i + 1} on one object")
+    if by is not None and a.get("factory"):
+        by.later(f"factory={a['factory']}")
     return out
 
 
@@ -684,6 +760,8 @@ INPUT_BUILDERS = _inputs_builders()
 
 def op_inputs(a):
     """construct and pack (twice): every caller-supplied argument object is afterwards what it was before"""
+    if a["kind"] == "factory":
+        return op_factory(a)
     args, ctor = _build(lambda: INPUT_BUILDERS[a["kind"]](a), "argument constructors")
     before = [_snap(x) for x in args]
     obj = _build(ctor, "constructor")
@@ -737,6 +815,395 @@ def op_conf(a):
                        "seq_w": int(q.byte_len), "seq_v": int(q.value), "mode": int(conf.trans_mode),
                        "large": int(conf.file_flag), "crc": int(conf.crc_flag), "dir": int(conf.direction),
                        "segctrl": int(conf.seg_ctrl)}}
+
+
+# --------------------------------------------------------------------------------------------
+# factories: classmethods / staticmethods / helper functions of the package that build an object of a mutable class
+# without being handed all of its state (`empty()`, `default()`, `success_params()`, `from_*`, `create_*`). The state
+# machines of the property are per object: what one call returned is not changed by setter calls on what another call
+# returned, and a later call returns the documented value again. One probe = core.factory_independent on the real code.
+# A case carries the name of the factory and every value used ("p"), so that it replays in a fresh process.
+# --------------------------------------------------------------------------------------------
+class Factory:
+    def __init__(self, make, view, mutate, documented=None, fresh_ok=None, latent: str = ""):
+        self.make, self.view, self.mutate, self.documented, self.fresh_ok, self.latent = make, view, mutate, documented, fresh_ok, latent
+
+
+def _tset(obj, name, value):
+    return core.tolerant_set(obj, name, value)
+
+
+def _v_field(f):
+    return {"w": int(f.byte_len), "v": int(f.value), "raw": hx(f.as_bytes), "len": len(f), "int": int(f)}
+
+
+def _v_conf(c):
+    return {"src": _v_field(c.source_entity_id), "dst": _v_field(c.dest_entity_id), "seq": _v_field(c.transaction_seq_num),
+            "mode": int(c.trans_mode), "large": int(c.file_flag), "crc": int(c.crc_flag), "dir": int(c.direction),
+            "segctrl": int(c.seg_ctrl), "header_len": int(c.header_len())}
+
+
+def _v_lv(x):
+    return {"value": hx(x.value), "value_len": int(x.value_len), "len": int(x.packet_len), "raw": hx(x.pack())}
+
+
+def _v_resp(t):
+    return {"action": int(t.action_code), "status": int(t.status_code), "first": t.first_file_name, "second": t.second_file_name,
+            "msg": _v_lv(t.filestore_msg), "len": int(t.packet_len), "raw": hx(t.pack())}
+
+
+def _v_finparams(x):
+    fl = x.fault_location
+    return {"cond": int(x.condition_code), "delivery": int(x.delivery_code), "status": int(x.file_status),
+            "responses": None if x.file_store_responses is None else [_v_resp(r) for r in x.file_store_responses],
+            "fault": None if fl is None else hx(fl.value)}
+
+
+def _v_fdparams(x):
+    sm = x.segment_metadata
+    return {"data": hx(x.file_data), "offset": int(x.offset),
+            "meta": None if sm is None else [int(sm.record_cont_state), hx(sm.metadata)]}
+
+
+def _v_pdu(name):
+    def v(p):
+        return _obs(KINDS[name], p, None, "the object the factory returned")
+    return v
+
+
+def _v_tc(t):
+    return {"raw": hx(t.pack()), "len": int(t.packet_len), "apid": int(t.apid), "count": int(t.seq_count), "service": int(t.service),
+            "subservice": int(t.subservice), "source_id": int(t.source_id), "data": hx(t.app_data), "dlen": int(t.sp_header.data_len)}
+
+
+def _v_tm(t):
+    return {"raw": hx(t.pack()), "len": int(t.packet_len), "apid": int(t.apid), "count": int(t.seq_count), "service": int(t.service),
+            "subservice": int(t.subservice), "data": hx(t.tm_data), "ts": hx(t.timestamp), "flags": int(t.seq_flags)}
+
+
+def _v_pid(x):
+    return {"raw": int(x.raw()), "apid": int(x.apid), "ptype": int(x.ptype), "shf": bool(x.sec_header_flag)}
+
+
+def _v_psc(x):
+    return {"raw": int(x.raw()), "flags": int(x.seq_flags), "count": int(x.seq_count)}
+
+
+def _v_reqid(r):
+    return {"u32": int(r.as_u32()), "raw": hx(r.pack()), "version": int(r.ccsds_version), "pid": _v_pid(r.tc_packet_id),
+            "psc": _v_psc(r.tc_psc)}
+
+
+def _v_sph(h):
+    return {"raw": hx(h.pack()), "apid": int(h.apid), "count": int(h.seq_count), "flags": int(h.seq_flags), "ptype": int(h.packet_type),
+            "shf": bool(h.sec_header_flag), "dlen": int(h.data_len), "version": int(h.ccsds_version), "len": int(h.packet_len)}
+
+
+def _v_cds(t):
+    return {"days": int(t.ccsds_days), "ms": int(t.ms_of_day), "raw": hx(t.pack()), "unix": float(t.as_unix_seconds()),
+            "dt": t.as_datetime().isoformat()}
+
+
+def _v_s1(t):
+    sid, fn = t.step_id, t.failure_notice
+    return {"raw": hx(t.pack()), "req": _v_reqid(t.tc_req_id), "subservice": int(t.subservice), "apid": int(t.pus_tm.apid),
+            "data": hx(t.pus_tm.tm_data), "step": None if sid is None else [int(sid.pfc), int(sid.val)],
+            "failure": None if fn is None else [int(fn.code.pfc), int(fn.code.val), hx(fn.data)]}
+
+
+def _m_field(f, v: int):
+    """the documented setters of an unsigned byte field"""
+    if int(f.byte_len) == 0:
+        _tset(f, "byte_len", 2)
+    _tset(f, "value", v % (1 << (8 * max(1, int(f.byte_len)))))
+
+
+def _m_conf(c, p):
+    _tset(c, "crc_flag", CrcFlag.WITH_CRC)
+    _tset(c, "file_flag", LargeFileFlag.LARGE)
+    _tset(c, "trans_mode", TransmissionMode.UNACKNOWLEDGED)
+    _tset(c, "direction", Direction.TOWARDS_SENDER)
+    _tset(c, "seg_ctrl", SegmentationControl.RECORD_BOUNDARIES_PRESERVATION)
+    _m_field(c.source_entity_id, p["u8"])
+    _m_field(c.transaction_seq_num, p["u8"] ^ 0xFF)
+    _tset(c, "dest_entity_id", UnsignedByteField(p["u16"], 2))
+
+
+def _a_resp(p):
+    return FileStoreResponseTlv(FilestoreActionCode.DELETE_FILE_SNN, FilestoreResponseStatusCode.DELETE_NOT_ALLOWED, p["text"])
+
+
+def _m_finparams(x, p):
+    _tset(x, "condition_code", ConditionCode.FILESTORE_REJECTION)
+    _tset(x, "delivery_code", DeliveryCode.DATA_INCOMPLETE)
+    _tset(x, "file_status", FileStatus.DISCARDED_FILESTORE_REJECTION)
+    if x.file_store_responses is not None:
+        x.file_store_responses.append(_a_resp(p))
+    _tset(x, "fault_location", EntityIdTlv(unhx(p["id"])))
+
+
+def _m_finpdu(x, p):
+    _tset(x, "condition_code", ConditionCode.FILESTORE_REJECTION)
+    _tset(x, "file_store_responses", [_a_resp(p)])
+    _tset(x, "fault_location", EntityIdTlv(unhx(p["id"])))
+
+
+def _m_fdparams(x, p):
+    _tset(x, "file_data", unhx(p["data"]))
+    _tset(x, "offset", p["u16"])
+    _tset(x, "segment_metadata", SegmentMetadata(RecordContinuationState.START_AND_END, unhx(p["id"])))
+
+
+def _m_fdpdu(x, p):
+    _tset(x, "file_data", unhx(p["data"]))
+    _tset(x, "segment_metadata", SegmentMetadata(RecordContinuationState.START_AND_END, unhx(p["id"])))
+
+
+def _m_lv(x, p):
+    # CfdpLv has no setters: its state is the two public attributes the constructor assigns
+    v = unhx(p["data"])
+    _tset(x, "value", v)
+    _tset(x, "value_len", len(v))
+
+
+def _m_tc(t, p):
+    _tset(t, "app_data", unhx(p["data"]))
+    _tset(t, "apid", p["apid"])
+    _tset(t, "seq_count", p["count"])
+    _tset(t, "source_id", p["u16"])
+
+
+def _m_tm(t, p):
+    _tset(t, "tm_data", unhx(p["data"]))
+    _tset(t, "apid", p["apid"])
+    _tset(t, "seq_flags", SequenceFlags.FIRST_SEGMENT)
+
+
+def _m_pid(x, p):
+    _tset(x, "apid", p["apid"])
+    _tset(x, "ptype", PacketType.TC if int(x.ptype) == int(PacketType.TM) else PacketType.TM)
+    _tset(x, "sec_header_flag", not x.sec_header_flag)
+
+
+def _m_psc(x, p):
+    _tset(x, "seq_count", p["count"])
+    _tset(x, "seq_flags", SequenceFlags.FIRST_SEGMENT if int(x.seq_flags) != int(SequenceFlags.FIRST_SEGMENT) else SequenceFlags.UNSEGMENTED)
+
+
+def _m_reqid(r, p):
+    _m_pid(r.tc_packet_id, p)
+    _m_psc(r.tc_psc, p)
+    _tset(r, "ccsds_version", 5)
+
+
+def _m_sph(h, p):
+    _tset(h, "apid", p["apid"])
+    _tset(h, "seq_count", p["count"])
+    _tset(h, "seq_flags", SequenceFlags.FIRST_SEGMENT)
+    _tset(h, "sec_header_flag", not h.sec_header_flag)
+    _tset(h, "packet_type", PacketType.TC if int(h.packet_type) == int(PacketType.TM) else PacketType.TM)
+    _tset(h, "data_len", p["u16"])
+
+
+def _m_cds(t, p):
+    core.attempt_all([
+        lambda: t.read_from_raw(bytes([0x40]) + (p["u16"] % 40000).to_bytes(2, "big") + (p["count"] * 1000 + p["u8"]).to_bytes(4, "big")),
+        lambda: t + datetime.timedelta(days=1 + p["u8"], seconds=p["u16"], milliseconds=p["u8"]),     # documented to update the object
+    ])
+
+
+def _m_s1(t, p):
+    _tset(t, "tc_req_id", RequestId(PacketId(PacketType.TC, True, p["apid"]), PacketSeqCtrl(SequenceFlags.UNSEGMENTED, p["count"])))
+    _tset(t.pus_tm, "tm_data", unhx(p["data"]))
+    _tset(t.pus_tm, "apid", p["apid"])
+
+
+def _sph_of(p, ptype=PacketType.TC):
+    return SpacePacketHeader(packet_type=ptype, apid=p["apid2"], seq_count=p["count2"], data_len=p["u8"], sec_header_flag=True)
+
+
+def _tc_of(p):
+    return PusTc(service=p["u8"], subservice=p["u8"] ^ 0x55, apid=p["apid2"], seq_count=p["count2"], app_data=unhx(p["id"]))
+
+
+def _conf_of_p(p):
+    return PduConfig(UnsignedByteField(p["u16"], 2), UnsignedByteField(p["u16"] ^ 0xFFFF, 2), UnsignedByteField(p["u8"], 1),
+                     TransmissionMode.ACKNOWLEDGED, crc_flag=CrcFlag(p["u8"] & 1), file_flag=LargeFileFlag((p["u8"] >> 1) & 1))
+
+
+FIXED_DT = datetime.datetime(2023, 7, 14, 21, 5, 9, 123000, tzinfo=datetime.timezone.utc)
+TS7 = bytes([0x40, 0x12, 0x34, 0x00, 0x56, 0x78, 0x9A])
+
+
+def _later(new, old) -> bool:
+    """clock-dependent factories: a later call shows the same or a slightly later time"""
+    return 0.0 <= new["unix"] - old["unix"] < 900.0
+
+
+def _quiet(f):
+    def g(*args):
+        with warnings.catch_warnings():
+            warnings.simplefilter("ignore")
+            return f(*args)
+    return g
+
+
+def _factories() -> Dict[str, Factory]:
+    F = Factory
+    zero_field = {"w": 1, "v": 0, "raw": "00", "len": 1, "int": 0}
+    none_field = {"w": 0, "v": 0, "raw": "", "len": 0, "int": 0}
+    fs: Dict[str, Factory] = {
+        # ---- CFDP ----
+        "PduConfig.default()": F(lambda p: PduConfig.default(), _v_conf, _m_conf,
+                                 documented=lambda p: {"src": zero_field, "dst": zero_field, "seq": zero_field, "mode": 0, "large": 0,
+                                                       "crc": 0, "dir": 0, "segctrl": 0, "header_len": 7}),
+        "PduConfig.empty()": F(lambda p: PduConfig.empty(), _v_conf, _m_conf,
+                               documented=lambda p: {"src": none_field, "dst": none_field, "seq": none_field, "mode": 0, "large": 0,
+                                                     "crc": 0, "dir": 0, "segctrl": 0, "header_len": 4}),
+        "FinishedParams.empty()": F(lambda p: FinishedParams.empty(), _v_finparams, _m_finparams,
+                                    documented=lambda p: {"cond": 0, "delivery": 0, "status": 0, "responses": [], "fault": None}),
+        "FinishedParams.success_params()": F(lambda p: FinishedParams.success_params(), _v_finparams, _m_finparams,
+                                             documented=lambda p: {"cond": 0, "delivery": 0, "status": 2, "responses": [], "fault": None}),
+        "FinishedPdu.success_pdu(conf)": F(lambda p: FinishedPdu.success_pdu(_conf_of_p(p)), _v_pdu("finished"), _m_finpdu),
+        "FinishedPdu(conf, FinishedParams.success_params())":
+            F(lambda p: FinishedPdu(_conf_of_p(p), FinishedParams.success_params()), _v_pdu("finished"), _m_finpdu),
+        "FinishedPdu(conf, FinishedParams.empty())":
+            F(lambda p: FinishedPdu(_conf_of_p(p), FinishedParams.empty()), _v_pdu("finished"), _m_finpdu),
+        "FinishedPdu.success_pdu(PduConfig.default())": F(lambda p: FinishedPdu.success_pdu(PduConfig.default()), _v_pdu("finished"), _m_finpdu),
+        "FileDataParams.empty()": F(lambda p: FileDataParams.empty(), _v_fdparams, _m_fdparams,
+                                    documented=lambda p: {"data": "", "offset": 0, "meta": None}),
+        "FileDataPdu(conf, FileDataParams.empty())":
+            F(lambda p: FileDataPdu(_conf_of_p(p), FileDataParams.empty()), _v_pdu("fd"), _m_fdpdu),
+        "KeepAlivePdu(PduConfig.default(), 0)": F(lambda p: KeepAlivePdu(PduConfig.default(), p["u16"]), _v_pdu("ka"),
+                                                  lambda x, p: _tset(x, "file_flag", LargeFileFlag.LARGE)),
+        "NakPdu(PduConfig.default(), 0, n, [])":
+            F(lambda p: NakPdu(PduConfig.default(), 0, p["u16"], []), _v_pdu("nak"),
+              lambda x, p: (_tset(x, "segment_requests", [(0, p["u8"]), (p["u8"], p["u16"])]), _tset(x, "file_flag", LargeFileFlag.LARGE))),
+        "CfdpLv.from_str(s)": F(lambda p: CfdpLv.from_str(p["text"]), _v_lv, _m_lv),
+        "CfdpLv.from_path(path)": F(lambda p: CfdpLv.from_path(pathlib.Path("/tmp") / p["text"]), _v_lv, _m_lv),
+        "DirectoryParams.from_strs(dir, name)":
+            F(lambda p: DirectoryParams.from_strs("/" + p["text"], p["text"] + ".txt"),
+              lambda x: {"path": _v_lv(x.dir_path), "name": _v_lv(x.dir_file_name), "path_s": x.dir_path_as_str, "name_s": x.dir_file_name_as_str},
+              lambda x, p: (_m_lv(x.dir_path, p), _tset(x, "dir_file_name", CfdpLv(unhx(p["id"]))))),
+        "DirectoryParams.from_paths(dir, name)":
+            F(lambda p: DirectoryParams.from_paths(pathlib.Path("/" + p["text"]), pathlib.Path(p["text"] + ".txt")),
+              lambda x: {"path": _v_lv(x.dir_path), "name": _v_lv(x.dir_file_name), "path_s": x.dir_path_as_str, "name_s": x.dir_file_name_as_str},
+              lambda x, p: (_m_lv(x.dir_file_name, p), _tset(x, "dir_path", CfdpLv(unhx(p["id"]))))),
+        "ProxyPutResponseParams.from_finished_params(params)":
+            F(lambda p: ProxyPutResponseParams.from_finished_params(FinishedParams.success_params()),
+              lambda x: {"cond": int(x.condition_code), "delivery": int(x.delivery_code), "status": int(x.file_status)},
+              lambda x, p: (_tset(x, "condition_code", ConditionCode.FILESTORE_REJECTION), _tset(x, "delivery_code", DeliveryCode.DATA_INCOMPLETE),
+                            _tset(x, "file_status", FileStatus.DISCARDED_FILESTORE_REJECTION)),
+              documented=lambda p: {"cond": 0, "delivery": 0, "status": 2}),
+        # ---- space packets / PUS ----
+        "PusTc.empty()": F(lambda p: PusTc.empty(), _v_tc, _m_tc),
+        "PusTc.from_sp_header(header, service, subservice, data)":
+            F(lambda p: PusTc.from_sp_header(_sph_of(p), p["u8"], p["u8"] ^ 0x55, unhx(p["id"])), _v_tc, _m_tc),
+        "PusTc.from_composite_fields(header, sec_header, data)":
+            F(lambda p: PusTc.from_composite_fields(_sph_of(p), PusTcDataFieldHeader(p["u8"], p["u8"] ^ 0x55), unhx(p["id"])), _v_tc, _m_tc),
+        "PusTm.empty()": F(lambda p: PusTm.empty(), _v_tm, _m_tm),
+        "PusTm.from_composite_fields(header, sec_header, data)":
+            F(lambda p: PusTm.from_composite_fields(_sph_of(p, PacketType.TM), PusTmSecondaryHeader(p["u8"], p["u8"] ^ 0x55, TS7, p["u16"]),
+                                                   unhx(p["id"])), _v_tm, _m_tm),
+        "RequestId.empty()": F(lambda p: RequestId.empty(), _v_reqid, _m_reqid),
+        "RequestId.from_sp_header(header)": F(lambda p: RequestId.from_sp_header(_sph_of(p)), _v_reqid, _m_reqid),
+        "RequestId.from_pus_tc(tc)": F(lambda p: RequestId.from_pus_tc(_tc_of(p)), _v_reqid, _m_reqid),
+        "PacketId.empty()": F(lambda p: PacketId.empty(), _v_pid, _m_pid,
+                              documented=lambda p: {"raw": 0, "apid": 0, "ptype": 0, "shf": False}),
+        "PacketId.from_raw(raw)": F(lambda p: PacketId.from_raw(p["raw16"] & 0x1FFF), _v_pid, _m_pid),
+        "PacketSeqCtrl.empty()": F(lambda p: PacketSeqCtrl.empty(), _v_psc, _m_psc, documented=lambda p: {"raw": 0, "flags": 0, "count": 0}),
+        "PacketSeqCtrl.from_raw(raw)": F(lambda p: PacketSeqCtrl.from_raw(p["raw16"]), _v_psc, _m_psc),
+        "SpacePacketHeader.from_composite_fields(packet_id, psc, data_length)":
+            F(lambda p: SpacePacketHeader.from_composite_fields(PacketId.from_raw(p["raw16"] & 0x1FFF), PacketSeqCtrl.from_raw(p["raw16"] ^ 0x5A5A),
+                                                                p["u16"]), _v_sph, _m_sph),
+        "Service1Tm(apid, subservice, timestamp)":
+            F(lambda p: Service1Tm(apid=p["apid2"], subservice=Subservice.TM_ACCEPTANCE_SUCCESS, timestamp=TS7), _v_s1,
+              lambda x, p: (_m_reqid(x.tc_req_id, p), _m_s1(x, p))),
+        # ---- time, fields, helpers ----
+        "CdsShortTimestamp.empty()": F(lambda p: CdsShortTimestamp.empty(), _v_cds, _m_cds),
+        "CdsShortTimestamp.from_unix_days(days, ms)": F(lambda p: CdsShortTimestamp.from_unix_days(p["u16"] % 40000, p["count"] * 1000), _v_cds, _m_cds),
+        "CdsShortTimestamp.from_datetime(dt)": F(lambda p: CdsShortTimestamp.from_datetime(FIXED_DT + datetime.timedelta(days=p["u8"])), _v_cds, _m_cds),
+        "CdsShortTimestamp.now()": F(lambda p: CdsShortTimestamp.now(), _v_cds, _m_cds, fresh_ok=_later),
+        "CdsShortTimestamp.from_now()": F(_quiet(lambda p: CdsShortTimestamp.from_now()), _v_cds, _m_cds, fresh_ok=_later),
+        "UnsignedByteField.from_bytes(raw)": F(lambda p: UnsignedByteField.from_bytes(unhx(p["w4"])), _v_field, lambda x, p: _m_field(x, p["u16"])),
+        "ByteFieldU8.from_u8_bytes(raw)": F(lambda p: ByteFieldU8.from_u8_bytes(unhx(p["w8"])), _v_field, lambda x, p: _m_field(x, p["u16"])),
+        "ByteFieldU16.from_u16_bytes(raw)": F(lambda p: ByteFieldU16.from_u16_bytes(unhx(p["w8"])), _v_field, lambda x, p: _m_field(x, p["u16"])),
+        "ByteFieldU32.from_u32_bytes(raw)": F(lambda p: ByteFieldU32.from_u32_bytes(unhx(p["w8"])), _v_field, lambda x, p: _m_field(x, p["u16"])),
+        "ByteFieldU64.from_u64_bytes(raw)": F(lambda p: ByteFieldU64.from_u64_bytes(unhx(p["w8"])), _v_field, lambda x, p: _m_field(x, p["u16"])),
+        "ByteFieldGenerator.from_int(width, value)":
+            F(lambda p: ByteFieldGenerator.from_int(p["width"], p["u8"]), _v_field, lambda x, p: _m_field(x, p["u16"])),
+        "ByteFieldGenerator.from_bytes(width, raw)":
+            F(lambda p: ByteFieldGenerator.from_bytes(p["width"], unhx(p["w8"])), _v_field, lambda x, p: _m_field(x, p["u16"])),
+        "ByteFieldEmpty()": F(lambda p: ByteFieldEmpty(), _v_field, lambda x, p: _m_field(x, p["u16"]), documented=lambda p: none_field),
+        "Countdown.from_seconds(s)": F(lambda p: Countdown.from_seconds(p["u16"]), lambda c: {"ms": int(c.timeout_ms), "s": c.timeout.total_seconds()},
+                                       lambda c, p: (_tset(c, "timeout", datetime.timedelta(milliseconds=p["count"])),
+                                                     c.reset(datetime.timedelta(milliseconds=p["count"] + 1)))),
+        "Countdown.from_millis(ms)": F(lambda p: Countdown.from_millis(p["u16"]), lambda c: {"ms": int(c.timeout_ms), "s": c.timeout.total_seconds()},
+                                      lambda c, p: (_tset(c, "timeout", datetime.timedelta(milliseconds=p["count"])),
+                                                    c.reset(datetime.timedelta(milliseconds=p["count"] + 1)))),
+        "PacketFieldEnum.with_byte_size(n, value)":
+            F(lambda p: PacketFieldEnum.with_byte_size(p["width"], p["u8"]),
+              lambda e: {"pfc": int(e.pfc), "val": int(e.val), "raw": hx(e.pack()), "len": int(e.len())},
+              lambda e, p: _tset(e, "val", p["u8"] ^ 0xFF)),
+        # ---- results that share an object by construction on the tree the framework was written for; not generated, kept
+        #      so that the sequences can be replayed (see `latent`) ----
+        "FileStoreResponseTlv(action, status, name)":
+            F(lambda p: FileStoreResponseTlv(FilestoreActionCode.DELETE_FILE_SNN, FilestoreResponseStatusCode.DELETE_SUCCESS, p["text"]),
+              _v_resp, lambda x, p: _m_lv(x.filestore_msg, p),
+              latent="the default argument filestore_msg=CfdpLv(b'') is ONE object for every TLV built without a message; CfdpLv has no "
+                     "setter, the sharing shows only when its public attributes value / value_len are assigned"),
+        "RequestId.from_pus_tc(tc), twice for ONE tc":
+            F(None, _v_reqid, _m_reqid,
+              latent="the RequestId holds the PacketId / PacketSeqCtrl objects of the telecommand's header (no copy): two request IDs of "
+                     "one telecommand, and the telecommand, change together when the public attributes of either are assigned"),
+    }
+    _one_tc: Dict[str, Any] = {}
+
+    def shared_tc(p):
+        k = json.dumps(p, sort_keys=True)
+        if k not in _one_tc:
+            _one_tc.clear()
+            _one_tc[k] = _tc_of(p)
+        return RequestId.from_pus_tc(_one_tc[k])
+    fs["RequestId.from_pus_tc(tc), twice for ONE tc"].make = shared_tc
+    for n, (sub, extra) in {"create_acceptance_success_tm": (1, ""), "create_acceptance_failure_tm": (2, "f"),
+                            "create_start_success_tm": (3, ""), "create_start_failure_tm": (4, "f"),
+                            "create_step_success_tm": (5, "s"), "create_step_failure_tm": (6, "sf"),
+                            "create_completion_success_tm": (7, ""), "create_completion_failure_tm": (8, "f")}.items():
+        def mk(p, n=n, extra=extra):
+            kw: Dict[str, Any] = {"apid": p["apid2"], "pus_tc": _tc_of(p), "timestamp": TS7}
+            if "s" in extra:
+                kw["step_id"] = PacketFieldEnum.with_byte_size(1, p["u8"])
+            if "f" in extra:
+                kw["failure_notice"] = FailureNotice(PacketFieldEnum.with_byte_size(1, p["u8"] ^ 0x0F), unhx(p["id"]))
+            return getattr(pus1, n)(**kw)
+        fs[f"{n}(apid, tc, ...)"] = F(mk, _v_s1, _m_s1)
+    return fs
+
+
+FACTORIES = _factories()
+
+
+def factory_params(rng: random.Random) -> Dict[str, Any]:
+    """every value a factory probe uses (arguments of the factory and of the setter calls)"""
+    return {"apid": rng.randint(1, 2047), "apid2": rng.randint(1, 2047), "count": rng.randint(1, 16383), "count2": rng.randint(1, 16383),
+            "u8": rng.randint(1, 255), "u16": rng.randint(256, 65535), "raw16": rng.randint(0, 65535),
+            "data": hx(rbytes(rng, rng.randint(1, 12))), "id": hx(rbytes(rng, rng.choice([1, 2, 4, 8]))),
+            "w4": hx(rbytes(rng, rng.choice([1, 2, 4, 8]))), "w8": hx(rbytes(rng, 8)), "width": rng.choice([1, 2, 4, 8]),
+            "text": "".join(rng.choice("abcdefghijklmnopqrstuvwxyz") for _ in range(rng.randint(1, 8)))}
+
+
+def op_factory(a):
+    """key "factory" of a c11_inputs line (the model op answers every c11_inputs line with untouched=true)"""
+    name, p = a["factory"], a["p"]
+    f = FACTORIES.get(name)
+    if f is None:
+        raise core.InfraError(f"C11: no factory probe named {name!r}")
+    documented = None if f.documented is None else f.documented(p)
+    err = core.factory_independent(lambda: f.make(p), f.view, lambda x: f.mutate(x, p), name, documented=documented, fresh_ok=f.fresh_ok)
+    if err is not None:
+        raise SelfCheckFailure(err)
+    return {"untouched": True}
 
 
 OPS = {"c11_tc": _seq_op("tc"), "c11_tm": _seq_op("tm"), "c11_nak": _seq_op("nak"), "c11_ka": _seq_op("ka"),
@@ -1213,6 +1680,8 @@ class C11(Prop):
         yield from self.recoded_cases(rng, thorough)
         # 3c. the same sequences while other objects built from the same caller configuration exist
         yield from self.twin_cases(rng, thorough)
+        # 3d. objects and parameter objects that come from the library's factories
+        yield from self.factory_cases(rng, thorough)
         # 4. caller inputs: all 512 header configurations through the three modelled constructors
         for kind in ("nak", "keepalive", "filedata", "eof", "finished", "metadata"):
             for a in c06.all_confs(rng):
@@ -1309,6 +1778,44 @@ class C11(Prop):
                     c.op["twin"] = modes[k % 3]
                     k += 1
                     yield c
+
+    def factory_cases(self, rng: random.Random, thorough: bool) -> Iterator[Case]:
+        """(i) key "factory" of a c11_inputs line: every factory of the package (FACTORIES) called several times, one result
+        modified, the others and a later result looked at again; (ii) key "factory" of a setter-sequence line (not read by
+        the model op): the object under test and its bystanders come from FinishedPdu.success_pdu / FinishedParams.
+        success_params / FinishedParams.empty / FileDataParams.empty, the whole sequence is compared with the model
+        built from the documented values of the factory"""
+        for name, f in FACTORIES.items():
+            if f.latent:
+                continue
+            for _ in range(10 if thorough else 2):
+                yield Case({"op": "c11_inputs", "kind": "factory", "factory": name, "p": factory_params(rng)}, "valid",
+                           tag="factory-independence")
+        modes = ["before", "after", "both"]
+        k = rng.randrange(3)
+        for name, hows in (("finished", list(FinishedKind.FACTORY_ARGS)), ("fd", ["empty_params"])):
+            g = GENS[name]
+            for how in hows:
+                for fx in [{"crc": c, "large": lg} for c in (0, 1) for lg in (0, 1)]:
+                    a = g.init(rng, via=False, **fx)
+                    if name == "finished":
+                        a.update(FinishedKind.FACTORY_ARGS[how])
+                    else:
+                        a.update(data="", offset=0, meta=None, state=None)
+                    a.update(via_unpack=False, factory=how, dir=rng.randint(0, 1))
+                    pool = g.pool(rng, a)
+                    if not thorough:
+                        pool = [s for s in pool if not _has_big_fill(s)]
+                    seqs = [[s] for s in pool]
+                    if thorough:
+                        seqs += [list(c) for c in itertools.product(pool, repeat=2)]
+                    for _ in range(6 if thorough else 2):
+                        seqs.append([g.step(rng, a, 0.0) for _ in range(rng.randint(2, 6))])
+                    for steps in seqs:
+                        c = seq_case(name, a, steps, "factory-bystander")
+                        c.op["twin"] = modes[k % 3]
+                        k += 1
+                        yield c
 
     def input_args(self, kind: str, rng: random.Random) -> Dict[str, Any]:
         mutable = rng.random() < 0.5
